@@ -49,6 +49,11 @@ Proof.
   f_equal; [|f_equal; [|f_equal]]; lia.
 Qed.
 
+Lemma language_readback a b c :
+  lower a = true -> lower b = true -> lower c = true ->
+  spec_mdhd_lang [a; b; c] = pack3 a b c /\ get_language (pack3 a b c) = [a; b; c].
+Proof. intros Ha Hb Hc. split; [reflexivity|exact (get_language_pack3 a b c Ha Hb Hc)]. Qed.
+
 Lemma lang_spec lang :
   (if Nat.eqb (length lang) 3 then (set_language lang, @None str) else (set_language (BS "und"), Some lang))
   = (Some (spec_mdhd_lang lang), spec_elng lang).
